@@ -20,7 +20,14 @@ Nothing here knows what scrapli *should* do: results are only classified (`class
 import asyncio, contextlib, errno, os, socket, sys, types
 
 OUTCOMES = ["data", "more", "empty", "eof", "epipe", "eio", "reset", "refused", "unreach", "timeout", "liberr", "liberr2", "none",
-            "dataIac", "dataIacVerb", "moreIac", "moreIacVerb"]
+            "dataIac", "dataIacVerb", "moreIac", "moreIacVerb", "cmdEpipe", "cmdReset", "cmdTimeout"]
+# cmdEpipe / cmdReset / cmdTimeout (sync Telnet transport): recv() delivers a chunk holding a COMPLETE negotiation command and the
+# send() of the reply the transport owes fails (EPIPE / ECONNRESET / socket.timeout): the peer reset or closed the session while
+# option replies were still owed — one read() call, two boundary calls.
+# cmdTimeout is observed but NOT in the domain: a 3-byte reply cannot fill the send buffer.  (Observed on it: the exception leaves
+# _handle_control_chars before `self._control_buf` is stored back, so the sync transport keeps a stale IAC and swallows every later
+# byte — harmless after a loss, which is what epipe / reset are.)
+CMD_REPLY = {"cmdEpipe": "epipe", "cmdReset": "reset", "cmdTimeout": "timeout"}
 # data-like outcomes (the call delivers bytes).  The *Iac / *IacVerb variants (Telnet transports only): the chunk ends strictly
 # inside a 3-byte Telnet command — after IAC, after IAC + verb — so the transport is left with a pending control sequence.
 DATA_LIKE = ("data", "more", "dataIac", "dataIacVerb", "moreIac", "moreIacVerb")
@@ -44,17 +51,17 @@ ASYNC = {"asynctelnet", "asyncssh"}
 DOMAIN = {
     "telnet": {
         "open": ["data", "refused", "unreach", "timeout"],           # connect(): ECONNREFUSED(*), EHOSTUNREACH/ENETUNREACH, socket.timeout
-        "read": ["data", "more", "dataIac", "dataIacVerb", "moreIac", "moreIacVerb", "empty", "reset", "timeout"],       # recv(): bytes, b"" after FIN(*), ECONNRESET(*), socket.timeout after timeout_socket(*)
+        "read": ["data", "more", "dataIac", "dataIacVerb", "moreIac", "moreIacVerb", "empty", "reset", "timeout", "cmdEpipe", "cmdReset"],       # recv(): bytes, b"" after FIN(*), ECONNRESET(*), socket.timeout after timeout_socket(*)
         "write": ["data", "epipe", "reset", "timeout"],              # send(): EPIPE(*), ECONNRESET(*), socket.timeout with a full send buffer
         "isalive": ["data", "epipe", "reset"],                       # send(b""): 0(*), EPIPE(*), ECONNRESET(*)
-        "close": ["data"],
+        "close": ["data", "epipe", "reset", "eio"],                  # socket.close(): documented to raise OSError — a pending ECONNRESET / EIO reported by close(2)
     },
     "asynctelnet": {
         "open": ["data", "refused", "unreach", "timeout", "reset"],  # open_connection(): OSError family, wait_for timeout
         "read": ["data", "more", "dataIac", "dataIacVerb", "moreIac", "moreIacVerb", "empty", "reset", "epipe", "timeout"],  # StreamReader.read(): b"" at EOF(*), the exception of connection_lost(exc): ECONNRESET(*), EPIPE(*), ETIMEDOUT
         "write": ["data"],                                           # StreamWriter.write() never raises on a lost connection(*)
         "isalive": ["data", "empty"],                                # at_eof(): False / True
-        "close": ["data"],
+        "close": ["data", "epipe", "reset", "eio"],                  # StreamWriter.close() -> transport.close(): an OSError of a broken connection
     },
     "system": {
         "open": [],                                                  # a real fork/exec of ssh: exercised by the pty rig, not by injection
@@ -71,7 +78,7 @@ DOMAIN = {
         "read": ["data", "more", "empty", "timeout"],                # Channel.recv(): b"" once the channel is closed(*), socket.timeout
         "write": ["data", "epipe", "timeout"],                       # Channel.send(): socket.error("Socket is closed") — an OSError, socket.timeout
         "isalive": ["data", "empty"],                                # Transport.is_alive()
-        "close": ["data"],
+        "close": ["data", "epipe", "reset", "eio", "eof"],           # Channel.close() sends a message over a possibly dead transport (OSError / EOFError); Socket.close() below
     },
     "asyncssh": {
         "open": ["data", "refused", "unreach", "timeout", "reset", "liberr", "liberr2"],  # connect(): OSError family, TimeoutError, ConnectionLost, other DisconnectError
@@ -79,7 +86,7 @@ DOMAIN = {
         "read": ["data", "more", "empty", "liberr", "liberr2"],      # SSHReader.read(): b"" at EOF(*), ConnectionLost(*), other DisconnectError (server sent DISCONNECT with a reason)
         "write": ["data", "epipe"],                                  # SSHWriter.write(): BrokenPipeError('Channel not open for sending')(*)
         "isalive": ["data", "empty"],                                # _transport present and not closing(*) / gone
-        "close": ["data", "epipe"],                                  # SSHClientConnection.close(): BrokenPipeError (suppressed by scrapli)
+        "close": ["data", "epipe", "reset", "eio"],                  # SSHClientConnection.close(): BrokenPipeError(*) (suppressed by scrapli), other OSError of the dying transport
     },
     "sim": {
         "open": ["data"],
@@ -93,7 +100,7 @@ for _t in DOMAIN:  # a handle that is None is possible for every method that nee
     for _m in ("read", "write", "isalive", "close"):
         DOMAIN[_t][_m] = DOMAIN[_t][_m] + ["none"]
 
-LOSS_FOR_ALIVE = ("empty", "eof", "eio", "reset", "epipe", "liberr", "liberr2")   # the session is gone (a socket.timeout alone does not say so)
+LOSS_FOR_ALIVE = ("empty", "eof", "eio", "reset", "epipe", "liberr", "liberr2", "cmdEpipe", "cmdReset")   # the session is gone (a socket.timeout alone does not say so)
 
 
 def sets_loss(t, o):
@@ -270,6 +277,10 @@ class Link:
         self.method = None              # scrapli transport method currently executing (set by the harness)
         self.killed = False
         self.closed = False
+        self.reads_in_a_row = 0         # boundary reads since the harness last entered a transport method / a write happened
+        self.reply_exc = None           # exception the next negotiation reply's send() raises
+        self.reply_fault = None         # (k, outcome): the session is reset / closed when the k-th (0-based) negotiation reply is sent
+        self.nreply = 0
         self.byte_fault = None          # (n, outcome): the session is lost after n bytes of device output (chunks are cut there)
         self.nbytes = 0
         self.fault_pre_done = False
@@ -352,6 +363,10 @@ class Link:
 
     # -- primary calls
     def do_read(self):
+        # the fakes never block: a transport that keeps calling the library without ever returning would spin for ever in-process
+        self.reads_in_a_row += 1
+        if self.reads_in_a_row > 5000:
+            raise Starved()
         if self.pre_iac:
             # the device's last bytes before the drop: IAC / IAC + verb, delivered alone (the Telnet transports then call recv again
             # inside the same read(): not a primary call of its own)
@@ -376,13 +391,36 @@ class Link:
             del self.buf[:take]
             self.nbytes += take
             return head + chunk + tail
+        if o in CMD_REPLY:
+            # a chunk with a complete negotiation command; the reply the transport now owes cannot be sent any more
+            head = (DO_ + b"\x01" if self.pend == 1 else b"\x01" if self.pend == 2 else b"")
+            self.pend = 0
+            self.reply_exc = exc_for(self.t, CMD_REPLY[o])
+            # exactly ONE command gets complete (the pending one, else a fresh one) and no plain bytes: text or further commands received
+            # before the failed reply would rightly be handled by the next read
+            return head if head else IAC + DO_ + b"\x18"
         if o == "empty":
             return b""
         raise exc_for(self.t, o)
 
     def do_write(self, data):
+        self.reads_in_a_row = 0
         if self.t in TELNETS and bytes(data[:1]) == IAC:
-            self.neg.append(bytes(data))        # the transport answering an option negotiation command
+            # the transport answering an option negotiation command: a boundary write of its own (inside read()), a fault point of its own
+            self.nreply += 1
+            if self.reply_exc is not None:
+                e, self.reply_exc = self.reply_exc, None
+                raise e
+            if self.reply_fault is not None and self.lost is None and self.nreply - 1 == self.reply_fault[0]:
+                o = self.reply_fault[1]
+                self.lost = ("write", o)
+                self.calls.append(("reply", o))
+                if self.t == "telnet":
+                    raise exc_for(self.t, o)
+                return len(data)                # asyncio stream writers never raise(*): the reset shows at the next read
+            if self.lost is not None and self.t == "telnet" and self._postloss("write") != "data":
+                raise exc_for(self.t, self._postloss("write"))
+            self.neg.append(bytes(data))
             return len(data)
         o = self.outcome("write")
         if o in DATA_LIKE or o == "empty":
@@ -819,6 +857,8 @@ def run_coro(coro):
 def call(t, tr, link, method):
     """invoke one scrapli transport method on the real transport; returns the classified act"""
     link.method = method
+    if hasattr(link, "reads_in_a_row"):
+        link.reads_in_a_row = 0
     try:
         if method in ("open", "openHs", "openAuth", "openChan"):
             fn = tr.open
@@ -912,7 +952,7 @@ def observe_map():
             for o in OUTCOMES:
                 if m.startswith("open") and (o == "none" or o in DATA_LIKE[1:]):
                     continue
-                if pend_of(o) and (t not in TELNETS or m != "read"):
+                if (pend_of(o) or o in CMD_REPLY) and (t not in TELNETS or m != "read"):
                     continue
                 if t == "system" and m.startswith("open"):
                     continue          # a real fork/exec: exercised by the pty rig, not by injection
@@ -969,7 +1009,7 @@ def observe_ctrl():
         for t in TELNETS:
             for m in ("read", "write", "isalive", "close"):
                 for o in OUTCOMES:
-                    if o == "none" or (pend_of(o) and m != "read"):
+                    if o == "none" or ((pend_of(o) or o in CMD_REPLY) and m != "read"):
                         continue
                     emapC[(c, t, m, o)] = observe_seq(t, pre + [(m, o)])[n]
             for lm in ("read", "write"):
